@@ -280,8 +280,8 @@ func TestVerifC09(t *testing.T) {
 	transition(env, 8, "K=8")
 	nExtra := []int{2, 32}
 	if verifThorough() {
-		for i := 0; i < 20; i++ {
-			nExtra = append(nExtra, []int{2, 8, 32}[i%3])
+		for i := 0; i < 90; i++ {
+			nExtra = append(nExtra, []int{2, 3, 8, 32, 64}[i%5])
 		}
 	}
 	for i, K := range nExtra {
